@@ -11,7 +11,8 @@ From SC Require Import Lib.Prelude Lib.Int Lib.Host Model.Math Proofs.Math Model
    o_asset      : 1 if query_asset() returns the asset token's address, 0 if another address
    A getter that traps is recorded as -1 (no balance, allowance, total or decimals is ever negative). *)
 Record obs := { o_ab : list Z; o_sb : list Z; o_sup : Z; o_ta : Z; o_aal : list (list Z); o_sal : list (list Z);
-                o_dec : Z; o_asset : Z }.
+                o_dec : Z; o_asset : Z;
+                o_now : Z (* the host's ledger sequence number when the observation was taken *) }.
 
 Record header := {
   h_cfg : cfg;          (* constructor arguments and constants *)
@@ -59,7 +60,7 @@ Definition eqb_out (a b : outcome) : bool :=
 Definition eqb_obs (a b : obs) : bool :=
   eqb_lz (o_ab a) (o_ab b) && eqb_lz (o_sb a) (o_sb b) && (o_sup a =? o_sup b) && (o_ta a =? o_ta b)
   && eqb_llz (o_aal a) (o_aal b) && eqb_llz (o_sal a) (o_sal b)
-  && (o_dec a =? o_dec b) && (o_asset a =? o_asset b).
+  && (o_dec a =? o_dec b) && (o_asset a =? o_asset b) && (o_now a =? o_now b).
 Definition eqb_pre (a b : res Z * res Z) : bool := eqb_rz (fst a) (fst b) && eqb_rz (snd a) (snd b).
 
 (* ---------- observation of a model state ---------- *)
@@ -72,7 +73,8 @@ Definition observe (c : cfg) (n : N) (s : state) : obs :=
      o_aal := map (fun o => map (allowance (now s) (asset s) o) (univ n)) (univ n);
      o_sal := map (fun o => map (allowance (now s) (share s) o) (univ n)) (univ n);
      o_dec := match vault_decimals c s with Ok d => d | Fail => -1 end;
-     o_asset := match query_asset s with Ok a => if N.eqb a ASSET_ADDR then 1 else 0 | Fail => -1 end |}.
+     o_asset := match query_asset s with Ok a => if N.eqb a ASSET_ADDR then 1 else 0 | Fail => -1 end;
+     o_now := now s |}.
 
 (* ---------- diff: replay through the model ---------- *)
 Fixpoint replay (c : cfg) (n : N) (s : state) (its : list item) (i : N) : N :=
@@ -100,6 +102,42 @@ Definition diff (t : trace) : N :=
            else 1%N
        end.
 
+(* ---------- well-formedness of a trace: CHECKED by the monitor, not assumed ---------- *)
+(* shape of an observation: one entry per address of the universe, square allowance tables *)
+Definition len_is {A} (n : N) (l : list A) : bool := N.eqb (N.of_nat (length l)) n.
+Definition obs_shape (n : N) (ob : obs) : bool :=
+  len_is n (o_ab ob) && len_is n (o_sb ob) && len_is n (o_aal ob) && len_is n (o_sal ob)
+  && forallb (len_is n) (o_aal ob) && forallb (len_is n) (o_sal ob).
+
+(* no balance, supply or total is negative (a trapping getter is recorded as -1) *)
+Definition obs_nonneg (ob : obs) : bool :=
+  forallb (Z.leb 0) (o_ab ob) && forallb (Z.leb 0) (o_sb ob) && (0 <=? o_sup ob) && (0 <=? o_ta ob).
+
+(* the owner whose balance a getter reads lies in the observed universe *)
+Definition call_owner_ok (n : N) (cl : call) : bool :=
+  match cl with
+  | Withdraw _ _ ow _ _ | Redeem _ _ ow _ _ => (ow <? n)%N
+  | Query (QMaxWithdraw o) | Query (QMaxRedeem o) => (o <? n)%N
+  | _ => true
+  end.
+(* every address a call names (parties and signers) belongs to the observed universe *)
+Definition call_parties (cl : call) : list addr :=
+  match cl with
+  | Deposit _ r f o _ | MintS _ r f o _ | Withdraw _ r f o _ | Redeem _ r f o _ => [r; f; o]
+  | ATransfer f t _ _ | STransfer f t _ _ => [f; t]
+  | AMint t _ => [t]
+  | AApprove o sp _ _ _ | SApprove o sp _ _ _ => [o; sp]
+  | STransferFrom sp f t _ _ => [sp; f; t]
+  | Query (QMaxDeposit a) | Query (QMaxMint a) | Query (QMaxWithdraw a) | Query (QMaxRedeem a) => [a]
+  | _ => []
+  end.
+Definition call_univ (n : N) (cl : call) : bool :=
+  forallb (fun a => (a <? n)%N) (call_parties cl) && forallb (fun p => (fst p <? n)%N) (call_auths cl).
+(* amounts are i128, the vault is not a signer (wf_call), all addresses are in the universe *)
+Definition wf_call_obs (n : N) (cl : call) : bool := wf_call cl && call_owner_ok n cl && call_univ n cl.
+(* offset and asset decimals are u32 values, the universe contains the vault, the ledger is a u32 *)
+Definition wf_hdr (c : cfg) (n : N) : bool := (0 <=? c_off c) && (0 <=? c_adec c) && (0 <? n)%N.
+
 (* ---------- the monitor: the property over implementation observations only ---------- *)
 
 (* an observed list / table read back as a total map (0 outside the universe) *)
@@ -121,6 +159,10 @@ Definition is_fail {A} (r : res A) : bool := match r with Fail => true | _ => fa
 Definition deposit_like (n : N) (prev ob : obs) (au : auths) (evs : list event)
   (assets shares : Z) (r f o : addr) : bool :=
   auth_full au o
+  (* nothing is created: the amounts are non-negative, [f] holds the assets, an operator other than [f] has the
+     allowance *)
+  && (0 <=? assets) && (0 <=? shares) && (assets <=? fn1 (o_ab prev) f)
+  && (N.eqb o f || (assets <=? fn2 (o_aal prev) f o))
   && eqb_lz (o_ab ob) (tab1 n (move (fn1 (o_ab prev)) f V assets))
   && eqb_lz (o_sb ob) (tab1 n (upd (fn1 (o_sb prev)) r (fn1 (o_sb prev) r + shares)))
   && (o_sup ob =? o_sup prev + shares)
@@ -131,8 +173,10 @@ Definition deposit_like (n : N) (prev ob : obs) (au : auths) (evs : list event)
 Definition withdraw_like (n : N) (prev ob : obs) (au : auths) (evs : list event)
   (assets shares : Z) (r ow o : addr) : bool :=
   auth_root au o
+  && (0 <=? assets) && (0 <=? shares)
   && (shares <=? fn1 (o_sb prev) ow)             (* within the owner's means *)
   && (assets <=? o_ta prev)                      (* and the vault's *)
+  && (N.eqb o ow || (shares <=? fn2 (o_sal prev) ow o))   (* an operator other than the owner has the allowance *)
   && eqb_lz (o_ab ob) (tab1 n (move (fn1 (o_ab prev)) V r assets))
   && eqb_lz (o_sb ob) (tab1 n (upd (fn1 (o_sb prev)) ow (fn1 (o_sb prev) ow - shares)))
   && (o_sup ob =? o_sup prev - shares)
@@ -196,7 +240,7 @@ Definition mon_call (c : cfg) (n : N) (prev : obs) (it : item) : bool :=
       match out with
       | Fail => true
       | Ok _ =>
-          auth_root au f
+          auth_root au f && (0 <=? a) && (a <=? fn1 (o_ab prev) f)
           && eqb_lz (o_ab ob) (tab1 n (move (fn1 (o_ab prev)) f t a))
           && eqb_lz (o_sb ob) (o_sb prev) && (o_sup ob =? S) && eqb_llz (o_sal ob) (o_sal prev)
       end
@@ -204,7 +248,8 @@ Definition mon_call (c : cfg) (n : N) (prev : obs) (it : item) : bool :=
       match out with
       | Fail => true
       | Ok _ =>
-          eqb_lz (o_ab ob) (tab1 n (upd (fn1 (o_ab prev)) t (fn1 (o_ab prev) t + a)))
+          (0 <=? a)
+          && eqb_lz (o_ab ob) (tab1 n (upd (fn1 (o_ab prev)) t (fn1 (o_ab prev) t + a)))
           && eqb_lz (o_sb ob) (o_sb prev) && (o_sup ob =? S) && eqb_llz (o_sal ob) (o_sal prev)
       end
   | AApprove _ _ _ _ _ =>
@@ -214,7 +259,7 @@ Definition mon_call (c : cfg) (n : N) (prev : obs) (it : item) : bool :=
       match out with
       | Fail => true
       | Ok _ =>
-          auth_root au f
+          auth_root au f && (0 <=? a) && (a <=? fn1 (o_sb prev) f)
           && eqb_lz (o_sb ob) (tab1 n (move (fn1 (o_sb prev)) f t a))
           && eqb_lz (o_ab ob) (o_ab prev) && (o_sup ob =? S) && eqb_llz (o_aal ob) (o_aal prev)
       end
@@ -222,7 +267,7 @@ Definition mon_call (c : cfg) (n : N) (prev : obs) (it : item) : bool :=
       match out with
       | Fail => true
       | Ok _ =>
-          auth_root au sp
+          auth_root au sp && (0 <=? a) && (a <=? fn1 (o_sb prev) f) && (a <=? fn2 (o_sal prev) f sp)
           && eqb_lz (o_sb ob) (tab1 n (move (fn1 (o_sb prev)) f t a))
           && eqb_lz (o_ab ob) (o_ab prev) && (o_sup ob =? S) && eqb_llz (o_aal ob) (o_aal prev)
       end
@@ -230,7 +275,8 @@ Definition mon_call (c : cfg) (n : N) (prev : obs) (it : item) : bool :=
       eqb_lz (o_ab ob) (o_ab prev) && eqb_lz (o_sb ob) (o_sb prev) && (o_sup ob =? S)
       && eqb_llz (o_aal ob) (o_aal prev)
   | Advance _ =>
-      eqb_lz (o_ab ob) (o_ab prev) && eqb_lz (o_sb ob) (o_sb prev) && (o_sup ob =? S)
+      (* time alone changes nothing (allowances: see mon_allow) *)
+      eqb_lz (o_ab ob) (o_ab prev) && eqb_lz (o_sb ob) (o_sb prev) && (o_sup ob =? S) && (o_ta ob =? A)
   | Query q =>
       eqb_obs ob prev
       && eqb_rz (match out with Ok (v, _) => Ok v | Fail => Fail end)
@@ -250,8 +296,11 @@ Definition mon_call (c : cfg) (n : N) (prev : obs) (it : item) : bool :=
 (* clauses common to every call *)
 Definition mon_step (c : cfg) (n : N) (prev : obs) (it : item) : bool :=
   let '(cl, pre, out, ob) := it in
+  (* the trace is well formed: the call names only addresses of the universe, amounts are i128, the vault does not
+     sign; the observation has one entry per address *)
+  wf_call_obs n cl && obs_shape n ob && obs_nonneg ob
   (* the vault still knows its asset and its decimals offset (stored once, by the constructor) *)
-  (o_dec ob =? c_adec c + c_off c) && (o_asset ob =? 1)
+  && (o_dec ob =? c_adec c + c_off c) && (o_asset ob =? 1)
   (* total_assets() is the asset token's balance of the vault *)
   && (o_ta ob =? fn1 (o_ab ob) V)
   (* a failing call leaves no trace; a failing preview means a failing operation *)
@@ -285,7 +334,7 @@ Definition can_pull_obs (c : cfg) (n : N) (st : mstate) (au : auths) (assets : Z
           && ((assets <=? 0) || (m_alu st f o <=? m_now st + c_max_ttl c - 1))))
   && (f <? n)%N && (o <? n)%N.
 
-Definition mon_allow (c : cfg) (n : N) (st : mstate) (it : item) : bool :=
+Definition mon_ghost (c : cfg) (n : N) (st : mstate) (it : item) : bool :=
   let '(cl, pre, out, ob) := it in
   let prev := m_obs st in
   match out with
@@ -309,9 +358,9 @@ Definition mon_allow (c : cfg) (n : N) (st : mstate) (it : item) : bool :=
           && eqb_llz (o_aal ob) (tab2 n (aged (m_alu st) (m_now st + k) (fn2 (o_aal prev))))
           && eqb_llz (o_sal ob) (tab2 n (aged (m_slu st) (m_now st + k) (fn2 (o_sal prev))))
       | AApprove o sp a _ au =>
-          auth_root au o && eqb_llz (o_aal ob) (tab2 n (upd2z (fn2 (o_aal prev)) o sp a))
+          auth_root au o && (0 <=? a) && eqb_llz (o_aal ob) (tab2 n (upd2z (fn2 (o_aal prev)) o sp a))
       | SApprove o sp a _ au =>
-          auth_root au o && eqb_llz (o_sal ob) (tab2 n (upd2z (fn2 (o_sal prev)) o sp a))
+          auth_root au o && (0 <=? a) && eqb_llz (o_sal ob) (tab2 n (upd2z (fn2 (o_sal prev)) o sp a))
       | ATransfer _ _ _ _ | AMint _ _ => eqb_llz (o_aal ob) (o_aal prev)
       | STransfer _ _ _ _ => eqb_llz (o_sal ob) (o_sal prev)
       | STransferFrom sp f _ a _ =>
@@ -319,6 +368,17 @@ Definition mon_allow (c : cfg) (n : N) (st : mstate) (it : item) : bool :=
       | _ => true
       end
   end.
+
+(* the ledger of the next state: only a successful Advance moves it *)
+Definition next_now (st : mstate) (it : item) : Z :=
+  let '(cl, pre, out, ob) := it in
+  match out, cl with
+  | Ok _, Advance k => m_now st + k
+  | _, _ => m_now st
+  end.
+(* the observed clock is the start ledger plus the successful Advance calls *)
+Definition mon_allow (c : cfg) (n : N) (st : mstate) (it : item) : bool :=
+  (o_now (snd it) =? next_now st it) && mon_ghost c n st it.
 
 Definition mnext (st : mstate) (it : item) : mstate :=
   let '(cl, pre, out, ob) := it in
@@ -345,17 +405,28 @@ Definition minit (h : header) : mstate :=
 
 (* the constructor accepts exactly the offsets 0..=MAX_DECIMALS_OFFSET (when decimals do not overflow),
    and a fresh vault is empty *)
+(* the observation of a freshly constructed vault: nobody holds anything *)
+Definition empty_obs (c : cfg) (n : N) (now0 : Z) : obs :=
+  {| o_ab := tab1 n (fun _ => 0); o_sb := tab1 n (fun _ => 0); o_sup := 0; o_ta := 0;
+     o_aal := tab2 n (fun _ _ => 0); o_sal := tab2 n (fun _ _ => 0);
+     o_dec := c_adec c + c_off c; o_asset := 1; o_now := now0 |}.
 Definition mon_header (h : header) : bool :=
   let c := h_cfg h in
-  match h_ctor h with
-  | Fail => (c_max_off c <? c_off c) || (MAXU32 <? c_adec c + c_off c)
-  | Ok d => (c_off c <=? c_max_off c) && (d =? c_adec c + c_off c)
-            && (o_sup (h_obs0 h) =? 0) && (o_ta (h_obs0 h) =? 0)
-  end.
+  wf_hdr c (h_n h) && in_u32 (h_now h)
+  && match h_ctor h with
+     | Fail => (c_max_off c <? c_off c) || (MAXU32 <? c_adec c + c_off c)
+     | Ok d => (c_off c <=? c_max_off c) && (d =? c_adec c + c_off c)
+               && eqb_obs (h_obs0 h) (empty_obs c (h_n h) (h_now h))
+     end.
 
 Definition monitor (t : trace) : N :=
   let h := fst t in
-  if mon_header h then mon_from (h_cfg h) (h_n h) (minit h) (snd t) 0%N else 1%N.
+  if mon_header h then
+    match h_ctor h, snd t with
+    | Fail, _ :: _ => 1%N              (* no vault, no calls *)
+    | _, _ => mon_from (h_cfg h) (h_n h) (minit h) (snd t) 0%N
+    end
+  else 1%N.
 
 Definition check (t : trace) : verdict := (diff t, monitor t, 0%N).
 Definition check_all (ts : list trace) : list verdict := map check ts.
